@@ -399,6 +399,66 @@ pub fn run(tier: Tier) -> i32 {
             ClusterAlphabet { byz_votes: byz_votes(&[1]), forge: forge_for(&[1]), blocks: slot1_blocks.clone(), invalid: vec![], windows: vec![0] },
         ),
     ];
+    // a slow correct node (10 %) timed out while the two large correct nodes (36 % each) notarized
+    // block a but have not seen each other's votes yet; the Byzantine validator (18 %) has signed
+    // notar(a) towards the slow node and may send notar(b) / skip-fallback to anybody: any
+    // double counting of one validator's stake in the fallback conditions makes the slot both
+    // fast-finalizable and skip-certifiable
+    let u4 = Arc::new(make_epoch(&[18, 10, 36, 36]));
+    let mut clusters = clusters;
+    {
+        use crate::cluster::PrefixOp;
+        let mut sys = ClusterSys::new(
+            "U4-slow-node-skipped-large-nodes-split-views",
+            u4.clone(),
+            vec![1, 2, 3],
+            0,
+            ClusterAlphabet {
+                byz_votes: vec![
+                    VoteSpec { kind: N, slot: 1, blk: 0, signer: 0 },
+                    VoteSpec { kind: N, slot: 1, blk: 1, signer: 0 },
+                    VoteSpec { kind: VK::SkipFb, slot: 1, blk: 0, signer: 0 },
+                    VoteSpec { kind: VK::NotarFb, slot: 1, blk: 1, signer: 0 },
+                ],
+                forge: vec![],
+                blocks: slot1_blocks.clone(),
+                invalid: vec![],
+                windows: vec![0],
+            },
+        );
+        sys.prefix = vec![
+            PrefixOp::BlockTo(0, vec![1, 2]),
+            PrefixOp::TimersOnceAt(0, vec![0]),
+            PrefixOp::TimersOnceAt(0, vec![0]),
+            PrefixOp::TimersOnceAt(0, vec![0]),
+            // the slow node's skip votes reach the other two, their own votes loop back, nothing else moves
+            PrefixOp::DeliverFromTo(0, 1),
+            PrefixOp::DeliverFromTo(0, 2),
+            PrefixOp::DeliverFromTo(1, 1),
+            PrefixOp::DeliverFromTo(2, 2),
+            PrefixOp::ByzTo(0, vec![0]),
+        ];
+        sys.max_msgs = 48;
+        clusters.push(sys);
+    }
+    if let Ok(spec) = std::env::var("C01_DEBUG") {
+        // debugging aid: C01_DEBUG="<cluster index>:<a,b,c>" replays a prefix and prints what the nodes emitted
+        let (si, acts) = spec.split_once(':').unwrap();
+        let sys = &clusters[si.parse::<usize>().unwrap()];
+        let mut w = sys.init();
+        for a in acts.split(',').filter(|x| !x.is_empty()) {
+            let a: u16 = a.parse().unwrap();
+            let o = sys.step(&mut w, a, true);
+            println!("step {} -> violations {:?}", sys.describe(a), o.violations.iter().map(|v| &v.0).collect::<Vec<_>>());
+        }
+        for (n, e) in w.emitted.iter().enumerate() {
+            println!("node v{} emitted:", sys.nodes[n]);
+            for m in e {
+                println!("   {}", format!("{m:?}").chars().take(90).collect::<String>());
+            }
+        }
+        std::process::exit(0);
+    }
     let cdepth = tier.pick(4, 8);
     for inner in clusters {
         // every transition is judged as before; in addition every new state is completed fairly
@@ -434,7 +494,7 @@ pub fn run(tier: Tier) -> i32 {
     }
     // ---- one real pool, equivocated sibling chains, every delivery order: the finalized set is a
     // function of the held certificates and blocks (so nodes holding the same inputs agree)
-    let order_cov = crate::c07_c08_c18::run_scens(&report, "C01", crate::c07_c08_c18::sibling_scens(tier), tier.pick(400_000, 4_000_000), tier.pick(20, 120), tier.pick(60, 1500));
+    let order_cov = crate::c07_c08_c18::run_scens(&report, "C01", crate::c07_c08_c18::sibling_scens(tier), tier.pick(400_000, 4_000_000), tier.pick(20, 120), tier.pick(240, 1500));
     let cov = json!({
         "order_independence_of_finalization": order_cov,
         "states": total.states,
